@@ -66,7 +66,7 @@ func vpPostReadIndexLeader(r *raft, pre vpRec, p2 vpPre2, rp vpReadPre, m *pb.Me
 	}
 	out := vpReadOutputs(r, pre, p2)
 	ro := r.readOnly
-	singleton := r.trk.IsSingleton()
+	singleton := len(r.trk.Voters[0]) == 1 && len(r.trk.Voters[1]) == 0 // (not trk.IsSingleton(): the oracle does not trust it)
 	local := vpOr(m.GetFrom() == None, m.GetFrom() == r.id)
 	reqBlob := vpBlobID(m.GetEntries()[0].GetData())
 	if ro.option != ReadOnlySafe {
@@ -216,6 +216,30 @@ func vpPostHeartbeatRespLeader(r *raft, pre vpRec, p2 vpPre2, rp vpReadPre, m *p
 }
 
 // R4: any reset installs an empty read-only state.
+// vpPostReadGeneric (every cell): read requests are answered only by the two
+// paths that go through the quorum round — a MsgReadIndex stepped at a sole
+// voter, a MsgHeartbeatResp completing a quorum — or, for requests postponed
+// until the first commit of the term, by a sole voter.
+func vpPostReadGeneric(r *raft, pre vpRec, p2 vpPre2, m *pb.Message) {
+	if pre.state != StateLeader || r.readOnly.option != ReadOnlySafe {
+		return
+	}
+	if m.GetType() == pb.MsgReadIndex || m.GetType() == pb.MsgHeartbeatResp {
+		return
+	}
+	out := vpReadOutputs(r, pre, p2)
+	if len(out) == 0 {
+		return
+	}
+	_, selfVoter := r.trk.Voters[0][r.id]
+	selfSole := selfVoter && len(r.trk.Voters[0]) == 1 && len(r.trk.Voters[1]) == 0
+	v := vpViewOf(r.raftLog)
+	vpAssert(vpAnd(selfSole, r.state == StateLeader, v.termAt(v.committed) == r.Term), "R2/postponed-reads-released-without-quorum-only-by-a-sole-voter")
+	for _, o := range out {
+		vpAssert(o.index >= pre.committed, "R3/answer-not-below-commit-at-receipt")
+	}
+}
+
 func vpPostReadReset(r *raft, pre vpRec) {
 	if r.state != pre.state || (r.state != StateLeader) {
 		if r.state != pre.state {
